@@ -62,8 +62,8 @@ def check_config(conv, model, Q, fails, where, ctx):
         a, b = outcome(conv.expand_strict, s), outcome(conv.expand, s, strict=True)
         if a != b or (a[0] == "v") != (e is not None) or (a[0] == "v" and a[1] != e):
             fails.append(("expand_strict-differs", f"{where}: expand_strict({s!r}) -> {a!r}, expand(strict=True) -> {b!r}, expand -> {e!r}"))
-    for p in joint.PREFIX_QUERIES:
-        for i in joint.IDENTIFIERS:
+    for p in joint.prefix_queries():
+        for i in joint.identifiers():
             if conv.format_curie(p, i) != p + d + i:
                 fails.append(("format_curie-differs", f"{where}: format_curie({p!r},{i!r}) = {conv.format_curie(p, i)!r}"))
     if ctx is not None:
